@@ -677,6 +677,8 @@ impl Database {
                 {
                     // read and write under one write lock, so that a concurrent set is either
                     // entirely before or entirely after the remove
+                    #[cfg(nundb_verif)]
+                    crate::verif_hooks::yield_point("map.write");
                     let mut db = self.map.write().unwrap();
                     if let Some(value) = db.get(&key).cloned() {
                         // If deleted before the key is in disk remove direct from memory
